@@ -474,7 +474,18 @@ impl<'c> G<'c> {
                 if props.iter().any(|p| p.key == key) {
                     continue;
                 }
-                props.push(Prop { key, ty: vt.clone(), optional: false });
+                // now and then a named property is an object type strictly narrower than the index value type (one more
+                // required property): still assignable to the index signature, but what is declared for the key is more
+                // than what the index signature says about it
+                let ty = match &vt {
+                    D::Object { props: vp, index: None } if !vp.iter().any(|p| p.key == "narrow") && s.chance(1, 2) => {
+                        let mut np = vp.clone();
+                        np.push(Prop { key: "narrow".into(), ty: D::Num, optional: false });
+                        D::Object { props: np, index: None }
+                    }
+                    _ => vt.clone(),
+                };
+                props.push(Prop { key, ty, optional: false });
             }
             // now and then the values of a pure record are optional (Partial<Record<string, T>>, { [K in string]?: T })
             if props.is_empty() && !self.cfg.only_null && !matches!(vt, D::Union(_) | D::Undefined | D::Void | D::Any | D::Never) && s.chance(1, 5) {
